@@ -180,6 +180,7 @@ def reload_after_advance(ctx, prog, rule):
     # the emit is reachable only through the outcome "new cursor == 1020" of a test of the cursor (the field itself or
     # the value that is stored into it)
     okt = False
+    test_blocks = set()
     stored = [strip_casts(R.rvalue(p)) for bi, si, kind, p in offs if kind == "stmt" and const_val(R.rvalue(p)) != 0]
     for bi in f.cfg():
         te = int_test_edges(f, R, bi)
@@ -196,10 +197,22 @@ def reload_after_advance(ctx, prog, rule):
             if d and d[0] == "binop" and d[1] == "Ge" and (is_self_field(d[2], "offset") or strip_casts(d[2]) in stored) and const_val(d[3]) == PAYLOAD:
                 e = switch_edges(f, bi)
                 full_succ = e.get("1", e["otherwise"])
+        if full_succ is not None:
+            test_blocks.add(bi)
         if full_succ is not None and S.steps["emit"]:
             g = cfg_without_edges(f, [(bi, full_succ)])
             okt = okt or all(b not in reach(g, [0]) for b in S.steps["emit"])
     ctx.ob(rule, "full-page-test/%s" % short(f.path), okt, "the page is emitted under the test self.offset == 1020")
+    # the cursor never rests at 1020 between calls (physical_position = device position + offset would point into the
+    # checksum): after every advance of the cursor the full-page test is passed before write returns successfully
+    incs = [bi for bi, si, kind, p in offs if kind == "stmt" and const_val(R.rvalue(p)) != 0]
+    okrest = bool(incs) and bool(test_blocks)
+    for bi in incs:
+        if bi in test_blocks:
+            continue
+        if find_path(f.cfg(), f.cfg().get(bi, []), set(f.return_blocks()), test_blocks | f.err_exit_blocks()) is not None:
+            okrest = False
+    ctx.ob(rule, "cursor-rests-below-payload/%s" % short(f.path), okrest, "after self.offset was advanced, every successful return of write passes the offset == 1020 test (the cursor is < 1020 whenever write returns)")
     # return value is the number of bytes accepted
     oks = [p for bi, si, cls, p in f.ret_assignments() if cls == "ok"]
     okr = len(oks) >= 1
